@@ -38,23 +38,23 @@ import (
 )
 
 type TravStep struct {
-	Attr string `json:"attr,omitempty"`
-	Idx  *int   `json:"idx,omitempty"`
+	Attr string  `json:"attr,omitempty"`
+	Idx  *int    `json:"idx,omitempty"`
 	Key  *string `json:"key,omitempty"`
 }
 
 type Edit struct {
-	Path   []int        `json:"path,omitempty"` // nested block indices (modulo the number of blocks at each level)
-	Op     string       `json:"op"`             // set-value set-traversal set-raw remove-attr append-block remove-block set-labels
-	Name   int          `json:"name"`           // >=0: existing attribute number (modulo), <0: a new name
-	Type   cfggen.Type  `json:"type,omitempty"`
-	Val    cfggen.Val   `json:"val,omitempty"`
-	Root   string       `json:"root,omitempty"`
-	Steps  []TravStep   `json:"steps,omitempty"`
-	Raw    string       `json:"raw,omitempty"`
-	BType  string       `json:"btype,omitempty"`
-	Labels []string     `json:"labels,omitempty"`
-	Block  int          `json:"block,omitempty"`
+	Path   []int       `json:"path,omitempty"` // nested block indices (modulo the number of blocks at each level)
+	Op     string      `json:"op"`             // set-value set-traversal set-raw remove-attr append-block remove-block set-labels
+	Name   int         `json:"name"`           // >=0: existing attribute number (modulo), <0: a new name
+	Type   cfggen.Type `json:"type,omitempty"`
+	Val    cfggen.Val  `json:"val,omitempty"`
+	Root   string      `json:"root,omitempty"`
+	Steps  []TravStep  `json:"steps,omitempty"`
+	Raw    string      `json:"raw,omitempty"`
+	BType  string      `json:"btype,omitempty"`
+	Labels []string    `json:"labels,omitempty"`
+	Block  int         `json:"block,omitempty"`
 }
 
 type CaseB struct {
@@ -160,14 +160,14 @@ type mAttr struct {
 }
 
 type mBlock struct {
-	typ      string
-	labels   []string
-	header   []tk // orig, labels unchanged: tokens type..last label
-	labelLo  int
-	labelHi  int
-	body     *mBody
-	orig     bool
-	oneLine  bool // orig: braces on one line
+	typ     string
+	labels  []string
+	header  []tk // orig, labels unchanged: tokens type..last label
+	labelLo int
+	labelHi int
+	body    *mBody
+	orig    bool
+	oneLine bool // orig: braces on one line
 }
 
 type mItem struct {
@@ -175,11 +175,14 @@ type mItem struct {
 	b      *mBlock
 	lo, hi int // orig: claimed source region (lead comments .. end of line)
 	orig   bool
+	// braceLine: the item's lead comments start right behind the enclosing block's
+	// opening brace, on the brace's line, and include the comment that ends that line
+	braceLine bool
 }
 
 type mBody struct {
-	items    []*mItem
-	unterminated bool // an item appended here follows a token that is not a line end
+	items        []*mItem
+	unterminated string // "", "eof" or "one-line-block": an item appended here follows a token that is not a line end
 }
 
 type region struct{ lo, hi int }
@@ -204,7 +207,7 @@ func endsLine(t tk) bool {
 }
 
 // buildBody builds the model of a body; lo/hi bound the token indices of the body.
-func buildBody(src []byte, toks []tk, body *hclsyntax.Body, minTok int) *mBody {
+func buildBody(src []byte, toks []tk, body *hclsyntax.Body, minTok int, inBlock bool) *mBody {
 	mb := &mBody{}
 	type it struct {
 		start, end int
@@ -246,6 +249,13 @@ func buildBody(src []byte, toks []tk, body *hclsyntax.Body, minTok int) *mBody {
 			break
 		}
 		item := &mItem{orig: true, lo: toks[lead].Start}
+		if inBlock && lead == minTok {
+			for k := lead; k < first; k++ {
+				if endsLine(toks[k]) {
+					item.braceLine = true
+				}
+			}
+		}
 		if end-1 >= 0 && end-1 < len(toks) {
 			item.hi = toks[end-1].End
 		}
@@ -266,9 +276,17 @@ func buildBody(src []byte, toks []tk, body *hclsyntax.Body, minTok int) *mBody {
 				blk.labelLo, blk.labelHi = b.LabelRanges[0].Start.Byte, hdrEnd
 			}
 			blk.header = toksIn(toks, b.TypeRange.Start.Byte, hdrEnd)
-			blk.oneLine = b.OpenBraceRange.Start.Line == b.CloseBraceRange.Start.Line
-			blk.body = buildBody(src, toks, b.Body, tokIndexAt(toks, b.OpenBraceRange.End.Byte))
-			blk.body.unterminated = blk.oneLine
+			// single-line form: what follows the opening brace (inline comments
+			// aside) is not the end of the line
+			k := tokIndexAt(toks, b.OpenBraceRange.End.Byte)
+			for k < len(toks) && toks[k].Type == hclsyntax.TokenComment && !endsLine(toks[k]) {
+				k++
+			}
+			blk.oneLine = k < len(toks) && !endsLine(toks[k])
+			blk.body = buildBody(src, toks, b.Body, tokIndexAt(toks, b.OpenBraceRange.End.Byte), true)
+			if blk.oneLine {
+				blk.body.unterminated = "one-line-block"
+			}
 			item.b = blk
 		}
 		mb.items = append(mb.items, item)
@@ -336,8 +354,9 @@ func rawTokens(s string) ([]tk, hclwrite.Tokens) {
 
 type applied struct {
 	ops        map[string]bool
-	appendOpen bool // an item was appended to a body whose last token is not a line end
-	nonPrint   bool // a string with a non-printable rune was written (value or label)
+	appendOpen string // an item was appended to a body whose last token is not a line end ("eof" / "one-line-block")
+	braceLine  bool   // an item was removed whose lead comments include the one ending the opening-brace line
+	nonPrint   bool   // a string with a non-printable rune was written (value or label)
 }
 
 // apply runs one edit on the writer body and on the model.
@@ -369,12 +388,12 @@ func (md *model) apply(e *Edit, wroot *hclwrite.Body, ap *applied) {
 			it.a = na
 			return
 		}
-		if mb.unterminated || (len(mb.items) > 0 && false) {
-			ap.appendOpen = true
+		if mb.unterminated != "" && ap.appendOpen == "" {
+			ap.appendOpen = mb.unterminated
 		}
 		na.name = name
 		mb.items = append(mb.items, &mItem{a: na})
-		mb.unterminated = false
+		mb.unterminated = ""
 	}
 	ap.ops[e.Op] = true
 	switch e.Op {
@@ -409,6 +428,9 @@ func (md *model) apply(e *Edit, wroot *hclwrite.Body, ap *applied) {
 		}
 		it := as[e.Name%len(as)]
 		wb.RemoveAttribute(it.a.name)
+		if it.braceLine {
+			ap.braceLine = true
+		}
 		if it.orig {
 			md.removed = append(md.removed, region{it.lo, it.hi})
 		}
@@ -420,11 +442,11 @@ func (md *model) apply(e *Edit, wroot *hclwrite.Body, ap *applied) {
 			}
 		}
 		wb.AppendNewBlock(e.BType, e.Labels)
-		if mb.unterminated {
-			ap.appendOpen = true
+		if mb.unterminated != "" && ap.appendOpen == "" {
+			ap.appendOpen = mb.unterminated
 		}
 		mb.items = append(mb.items, &mItem{b: &mBlock{typ: e.BType, labels: append([]string{}, e.Labels...), body: &mBody{}}})
-		mb.unterminated = false
+		mb.unterminated = ""
 	case "remove-block":
 		mbl, wbl := mb.blocks(), wb.Blocks()
 		if len(mbl) == 0 || len(wbl) != len(mbl) {
@@ -432,6 +454,9 @@ func (md *model) apply(e *Edit, wroot *hclwrite.Body, ap *applied) {
 		}
 		it := mbl[e.Block%len(mbl)]
 		wb.RemoveBlock(wbl[e.Block%len(wbl)])
+		if it.braceLine {
+			ap.braceLine = true
+		}
 		if it.orig {
 			md.removed = append(md.removed, region{it.lo, it.hi})
 		}
@@ -615,7 +640,15 @@ func checkB(c CaseB) *core.Violation {
 	if diags.HasErrors() || f == nil {
 		return nil // C20(a)
 	}
-	md := &model{root: buildBody(src, toks, parsed.Body.(*hclsyntax.Body), 0)}
+	// files that the writer does not even load losslessly are C20(a)'s findings;
+	// edits are checked on the others
+	{
+		lt, _ := lex(f.BuildTokens(nil).Bytes())
+		if sameToks(toks, lt) >= 0 {
+			return nil
+		}
+	}
+	md := &model{root: buildBody(src, toks, parsed.Body.(*hclsyntax.Body), 0, false)}
 	// the root body is "open" when the file does not end with a line end
 	last := -1
 	for i := len(toks) - 1; i >= 0; i-- {
@@ -624,7 +657,9 @@ func checkB(c CaseB) *core.Violation {
 			break
 		}
 	}
-	md.root.unterminated = last >= 0 && !endsLine(toks[last])
+	if last >= 0 && !endsLine(toks[last]) {
+		md.root.unterminated = "eof"
+	}
 
 	ap := &applied{ops: map[string]bool{}}
 	for i := range c.Edits {
@@ -635,19 +670,39 @@ func checkB(c CaseB) *core.Violation {
 		return fmt.Sprintf("edits: %s\noutput:\n%s\nsource:\n%s", clip(fmt.Sprintf("%+v", c.Edits), 1500), clip(string(out), 2500), clip(c.Src, 2500))
 	}
 	oparsed, od := hclsyntax.ParseConfig(out, "", startPos)
-	if od.HasErrors() {
-		cause := "other"
-		switch {
-		case ap.appendOpen:
-			cause = "item-appended-after-unterminated-item"
-		case ap.nonPrint:
-			cause = "non-printable-rune-written-as-unicode-escape"
+	// a case in which an item was appended behind a token that does not end its
+	// line is attributed to that, whatever the symptom (parse error, item swallowed
+	// by a comment, ...)
+	attribute := func(sig string) string {
+		switch ap.appendOpen {
+		case "eof":
+			return "edit|append-after-last-line-without-newline"
+		case "one-line-block":
+			return "edit|append-into-one-line-block"
 		}
-		return core.V("edit|output-does-not-parse|"+cause+"|"+opsSig(ap), "the edited file no longer parses: %s\n%s", od.Error(), show())
+		if ap.braceLine {
+			return "edit|remove-first-item|takes-comment-ending-the-opening-brace-line"
+		}
+		return sig
+	}
+	if od.HasErrors() {
+		cause := "other|" + opsSig(ap)
+		if ap.nonPrint {
+			only := true
+			for _, d := range od {
+				if d.Severity == hcl.DiagError && d.Summary != "Invalid escape sequence" {
+					only = false
+				}
+			}
+			if only {
+				cause = "non-printable-rune-written-as-unicode-escape"
+			}
+		}
+		return core.V(attribute("edit|output-does-not-parse|"+cause), "the edited file no longer parses: %s\n%s", od.Error(), show())
 	}
 	otoks, _ := lex(out)
 	if sig, msg := compareBody(md.root, oparsed.Body.(*hclsyntax.Body), otoks, ""); sig != "" {
-		return core.V("edit|"+sig+"|"+opsSig(ap), "%s\n%s", msg, show())
+		return core.V(attribute("edit|"+sig+"|"+opsSig(ap)), "%s\n%s", msg, show())
 	}
 	// comments
 	var all, must []string
@@ -675,10 +730,10 @@ func checkB(c CaseB) *core.Violation {
 		return o
 	}
 	if ok, missing := isSubseq(norm(must), norm(have)); !ok {
-		return core.V("edit|comment-lost|"+opsSig(ap), "comment %q belongs to no removed or replaced item and is missing from the output (or out of order)\n%s", missing, show())
+		return core.V(attribute("edit|comment-lost|"+opsSig(ap)), "comment %q belongs to no removed or replaced item and is missing from the output (or out of order)\n%s", missing, show())
 	}
 	if ok, extra := isSubseq(norm(have), norm(all)); !ok {
-		return core.V("edit|comment-appeared|"+opsSig(ap), "comment %q of the output is not an original comment in original order\n%s", extra, show())
+		return core.V(attribute("edit|comment-appeared|"+opsSig(ap)), "comment %q of the output is not an original comment in original order\n%s", extra, show())
 	}
 	return nil
 }
@@ -722,7 +777,7 @@ func TestC20b(t *testing.T) {
 	core.Run(t, core.Spec[CaseB]{
 		Property: "C20", Sub: "b",
 		Rule: "a generated source file (as in C20a) and 1-5 edits, each on the root body or a nested body reached through 0-2 block indices: SetAttributeValue (primitive/list/map/set/any values, arbitrary Unicode strings), SetAttributeTraversal, SetAttributeRaw, RemoveAttribute (existing or missing), AppendNewBlock (0-2 labels), RemoveBlock, SetLabels; the same edits update a model built from hclsyntax's parse. Oracle: File.Bytes() parses; every body shows the model's items in order; untouched attributes and block headers keep their tokens; set attributes read back as the value / traversal / tokens given; labels are the model's; comments outside removed or replaced regions are all still there in order and no comment appears. Non-trivial: heredoc, comment or template in the file, or >=2 edits; distinct = (origin, heredoc, comment, template, #edits<=3, first two op kinds)",
-		Gen:   genB, Check: checkB, Classify: classifyB,
+		Gen:  genB, Check: checkB, Classify: classifyB,
 		Assumptions: []string{
 			"hclsyntax's parse of the source and of the output is the trusted observer of structure",
 			"lead comments = comment tokens directly before an item (no blank line), line comments = comments up to the end of the item's line, as documented in hclwrite/parser.go; an item removed may or may not take these with it",
